@@ -1,3 +1,239 @@
-import Sbdf.Slice
+/-
+  C02 — Every value-array encoding is lossless and reports the right row count.
+-/
+import Sbdf.ValueArray
 namespace Sbdf.C02
+
+/-! ### run-length encoding -/
+
+theorem ofNat_run (run : Nat) (h1 : 1 ≤ run) (h2 : run ≤ 256) : (UInt8.ofNat (run - 1)).toNat + 1 = run := by
+  rw [UInt8.toNat_ofNat']; omega
+
+/-- loop invariant of the encoder: expanding what the loop emits gives back the pending run
+    followed by the rest of the input -/
+theorem expand_loop (rest : List Bytes) (run : Nat) (prev : Bytes) (h1 : 1 ≤ run) (h2 : run ≤ 256) :
+    rleExpand (rleLoop rest run prev) = List.replicate run prev ++ rest := by
+  induction rest generalizing run prev with
+  | nil =>
+    have hr := ofNat_run run h1 h2
+    simp only [rleLoop, rleExpand, hr, List.append_nil]
+  | cons cur rest ih =>
+    have hr := ofNat_run run h1 h2
+    simp only [rleLoop]
+    split
+    · simp only [rleExpand, hr]
+      rw [ih 1 cur (by omega) (by omega)]
+      simp
+    · rename_i hc
+      simp only [not_or, Decidable.not_not] at hc
+      rw [ih (run + 1) cur (by omega) (by omega), ← hc.2]
+      simp [List.replicate_succ', List.append_assoc]
+
+/-- decoding an encoded array returns the original values, in order -/
+theorem rle_expand_encode (es : List Bytes) : rleExpand (rleEncode es) = es := by
+  cases es with
+  | nil => rfl
+  | cons e es => simp [rleEncode, expand_loop es 1 e (by omega) (by omega)]
+
+theorem expand_length (l : List (UInt8 × Bytes)) : (rleExpand l).length = rleTotal (l.map (·.1)) := by
+  unfold rleTotal
+  suffices h : ∀ acc, List.foldl (fun acc r => acc + r.toNat + 1) acc (l.map (·.1)) = acc + (rleExpand l).length by
+    simpa using (h 0).symm
+  induction l with
+  | nil => intro acc; simp [rleExpand]
+  | cons x xs ih =>
+    intro acc
+    obtain ⟨r, v⟩ := x
+    simp only [List.map_cons, List.foldl_cons, ih, rleExpand, List.length_append, List.length_replicate]
+    omega
+
+theorem zip_fst_snd (l : List (UInt8 × Bytes)) : (l.map (·.1)).zip (l.map (·.2)) = l := by
+  induction l with
+  | nil => rfl
+  | cons x xs ih => simp [ih]
+
+/-- every stored run is between 1 and 256 rows (stored as length-1 in a byte), and the encoder
+    produces as many values as runs -/
+theorem runs_values_same_length (es : List Bytes) :
+    ((rleEncode es).map (·.1)).length = ((rleEncode es).map (·.2)).length := by simp
+
+def elemSize (tid : Nat) : Nat := match elemSizeOrPtr tid with | .ok n => n | .error _ => 0
+
+/-- run-length: lossless and the row count is the number of values (given that the allocator
+    grants the output buffer of `elemSize * count` bytes) -/
+theorem rle_lossless (c : Cfg) (o : Obj) (va : VA) (h : createRle o = .ok va)
+    (hcap : (elemSize o.tid : Int) * o.count ≤ c.cap) (hcapmax : (c.cap : Int) ≤ INT_MAX) :
+    getValues c va = .ok o ∧ va.rowCnt = o.count := by
+  have hva : va = VA.rle o.count ((rleEncode o.elems).map (·.1)) ⟨o.tid, (rleEncode o.elems).map (·.2)⟩ := by
+    unfold createRle at h
+    split at h
+    · simp at h; exact h.symm
+    · split at h
+      · simp at h
+      · simp at h; exact h.symm
+  have hsz : ∃ sz, elemSizeOrPtr o.tid = .ok sz ∧ 0 < sz := by
+    unfold createRle at h
+    unfold elemSizeOrPtr
+    split at h
+    · rename_i ha; exact ⟨8, by simp [ha], by omega⟩
+    · rename_i ha
+      split at h
+      · simp at h
+      · rename_i n hn
+        refine ⟨n, by simp [ha, hn], ?_⟩
+        unfold fixedSize at hn
+        cases hu : unpackedSize o.tid with
+        | none => simp [hu] at hn
+        | some k => cases k with
+          | zero => simp [hu] at hn
+          | succ k => simp [hu] at hn; omega
+  obtain ⟨sz, hsz, hpos⟩ := hsz
+  subst hva
+  refine ⟨?_, rfl⟩
+  have hes : elemSize o.tid = sz := by simp [elemSize, hsz]
+  rw [hes] at hcap
+  have htot : (rleTotal ((rleEncode o.elems).map (·.1)) : Int) = (o.count : Int) := by
+    rw [← expand_length, rle_expand_encode]; rfl
+  have hdiv : ¬ ((o.count : Int) > INT_MAX / (sz : Int)) := by
+    have : (o.count : Int) ≤ INT_MAX / (sz : Int) :=
+      Int.le_ediv_of_mul_le (by omega) (by rw [Int.mul_comm]; omega)
+    omega
+  simp only [getValues, hsz, List.length_map, Obj.count, ne_eq, not_true_eq_false, if_false, htot, hdiv,
+    zip_fst_snd, rle_expand_encode]
+  have hcap' : ¬ ((sz : Int) * (o.elems.length : Int) > (c.cap : Int)) := by
+    simp only [Obj.count] at hcap; omega
+  have hdiv' : ¬ ((o.elems.length : Int) > INT_MAX / (sz : Int)) := by simpa [Obj.count] using hdiv
+  simp [hcap', hdiv', Obj.count]
+
+/-! ### plain and default -/
+
+theorem plain_lossless (c : Cfg) (o : Obj) (va : VA) (h : createPlain o = .ok va) :
+    getValues c va = .ok o ∧ va.rowCnt = o.count := by
+  unfold createPlain at h
+  split at h
+  · simp at h; subst h; exact ⟨rfl, rfl⟩
+  · split at h
+    · simp at h
+    · simp at h; subst h; exact ⟨rfl, rfl⟩
+
+/-- the default choice: bit-packed for booleans, plain otherwise -/
+theorem dflt_choice (o : Obj) : createDflt o = if o.tid = 1 then createBit o else createPlain o := rfl
+
+/-- an unknown encoding id is refused with the unknown-encoding status and no array -/
+theorem unknown_encoding (enc : Int) (o : Obj) (h : enc ≠ 1 ∧ enc ≠ 2 ∧ enc ≠ 3) :
+    vaCreate enc o = .error .unknownEncoding := by
+  simp [vaCreate, h.1, h.2.1, h.2.2]
+
+/-! ### bit packing -/
+
+theorem byte_bits8 : ∀ b0 b1 b2 b3 b4 b5 b6 b7 : Bool,
+    bitsOfByte (byteOfBits [b0, b1, b2, b3, b4, b5, b6, b7]) = [b0, b1, b2, b3, b4, b5, b6, b7] := by
+  decide
+
+theorem bits_of_byte_of_bits (g : List Bool) (h : g.length ≤ 8) :
+    bitsOfByte (byteOfBits g) = g ++ List.replicate (8 - g.length) false := by
+  have hp : (g ++ List.replicate (8 - g.length) false).length = 8 := by simp; omega
+  have e : byteOfBits g = byteOfBits (g ++ List.replicate (8 - g.length) false) := by
+    simp only [byteOfBits, hp, Nat.sub_self, List.replicate_zero, List.append_nil]
+  rw [e]
+  generalize g ++ List.replicate (8 - g.length) false = p at hp
+  match p, hp with
+  | [b0, b1, b2, b3, b4, b5, b6, b7], _ => exact byte_bits8 b0 b1 b2 b3 b4 b5 b6 b7
+
+/-- the bytes of a packed array, read MSB first, are the bits followed by zero padding -/
+theorem unpack_pack_all (bs : List Bool) :
+    (packBits bs).flatMap bitsOfByte = bs ++ List.replicate ((8 - bs.length % 8) % 8) false := by
+  generalize hn : bs.length = n
+  induction n using Nat.strongRecOn generalizing bs with
+  | _ n ih =>
+    subst hn
+    cases bs with
+    | nil => simp [packBits]
+    | cons b rest =>
+      rw [packBits]
+      simp only [List.flatMap_cons]
+      by_cases hlen : (b :: rest).length ≥ 8
+      · have ht : ((b :: rest).take 8).length = 8 := by
+          rw [List.length_take]; omega
+        rw [bits_of_byte_of_bits _ (by omega), ht]
+        simp only [Nat.sub_self, List.replicate_zero, List.append_nil]
+        have hdl : ((b :: rest).drop 8).length = (b :: rest).length - 8 := List.length_drop
+        have hd : ((b :: rest).drop 8).length < (b :: rest).length := by rw [hdl]; omega
+        rw [ih _ hd _ rfl]
+        have hm : ((b :: rest).drop 8).length % 8 = (b :: rest).length % 8 := by
+          rw [hdl]; omega
+        rw [hm, ← List.append_assoc, List.take_append_drop]
+      · have hlt : (b :: rest).length < 8 := by omega
+        have ht : (b :: rest).take 8 = b :: rest := List.take_of_length_le (by omega)
+        have hd : (b :: rest).drop 8 = [] := List.drop_of_length_le (by omega)
+        rw [ht, hd, bits_of_byte_of_bits _ (by omega)]
+        simp only [packBits, List.flatMap_nil, List.append_nil]
+        have hmod : (b :: rest).length % 8 = (b :: rest).length := Nat.mod_eq_of_lt hlt
+        have hpos : 0 < (b :: rest).length := by simp
+        have : (8 - (b :: rest).length % 8) % 8 = 8 - (b :: rest).length := by rw [hmod]; omega
+        rw [this]
+
+/-- unpacking `bs.length` rows from the packed bits gives the bits back -/
+theorem unpack_pack (bs : List Bool) : unpackBits bs.length (packBits bs) = bs := by
+  simp [unpackBits, unpack_pack_all]
+
+theorem packBits_length (bs : List Bool) : (packBits bs).length * 8 ≥ bs.length := by
+  have := congrArg List.length (unpack_pack_all bs)
+  simp only [List.length_flatMap, List.length_append, List.length_replicate] at this
+  have h8 : ∀ x ∈ (packBits bs), (bitsOfByte x).length = 8 := by intro x _; simp [bitsOfByte]
+  have : ((packBits bs).map (fun x => (bitsOfByte x).length)).sum = (packBits bs).length * 8 := by
+    generalize packBits bs = l at h8
+    induction l with
+    | nil => rfl
+    | cons x xs ih =>
+      simp only [List.map_cons, List.sum_cons, List.length_cons]
+      rw [h8 x (by simp), ih (fun y hy => h8 y (by simp [hy]))]; omega
+  omega
+
+/-- bit-packing maps each element to zero / non-zero, keeps the order and the row count -/
+theorem bit_values (c : Cfg) (o : Obj) (va : VA) (hfix : isArr o.tid = false) (h : createBit o = .ok va)
+    (hcap : (o.count : Int) ≤ c.cap) :
+    getValues c va = .ok ⟨1, o.elems.map (fun e => boolByte (!isZeroElem e))⟩ ∧ va.rowCnt = o.count := by
+  unfold createBit at h
+  simp only [hfix, Bool.false_eq_true, if_false] at h
+  split at h
+  · simp at h
+  · simp at h; subst h
+    refine ⟨?_, rfl⟩
+    have hl : (o.elems.map (fun e => !isZeroElem e)).length = o.count := by simp [Obj.count]
+    have h1 : ¬ ((o.count : Int) < 0 ∨ (o.count : Int) > c.cap) := by omega
+    have h2 : ¬ ((packBits (o.elems.map (fun e => !isZeroElem e))).length * 8 < (o.count : Int).toNat) := by
+      have := packBits_length (o.elems.map (fun e => !isZeroElem e))
+      rw [hl] at this; simp; omega
+    simp only [getValues, h1, if_false, h2]
+    have : (o.count : Int).toNat = (o.elems.map (fun e => !isZeroElem e)).length := by simp [hl]
+    rw [this, unpack_pack]
+    simp
+
+/-- hence bit-packing is lossless on arrays whose elements are the canonical 0 / 1 bytes -/
+theorem bit_lossless_bool (c : Cfg) (o : Obj) (va : VA) (ht : o.tid = 1)
+    (h01 : ∀ e ∈ o.elems, e = [0] ∨ e = [1]) (h : createBit o = .ok va) (hcap : (o.count : Int) ≤ c.cap) :
+    getValues c va = .ok o := by
+  have hfix : isArr o.tid = false := by rw [ht]; rfl
+  rw [(bit_values c o va hfix h hcap).1]
+  cases o with | mk tid elems =>
+  simp only at ht h01 ⊢
+  subst ht
+  congr 2
+  have : ∀ l : List Bytes, (∀ e ∈ l, e = [0] ∨ e = [1]) → l.map (fun e => boolByte (!isZeroElem e)) = l := by
+    intro l hl
+    induction l with
+    | nil => rfl
+    | cons x xs ih =>
+      simp only [List.map_cons]
+      rw [ih (fun e he => hl e (by simp [he]))]
+      rcases hl x (by simp) with h | h <;> subst h <;> rfl
+  exact this elems h01
+
+/-- non-vacuity, including the empty array that motivated the repair of the encoder -/
+example : createRle ⟨2, []⟩ = .ok (.rle 0 [] ⟨2, []⟩) ∧
+    createRle ⟨2, [[1,0,0,0],[1,0,0,0],[2,0,0,0]]⟩ = .ok (.rle 3 [1, 0] ⟨2, [[1,0,0,0],[2,0,0,0]]⟩) := ⟨rfl, rfl⟩
+example : packBits [true, false, true] = [0xa0] := by
+  simp [packBits, byteOfBits, bitsVal]
+
 end Sbdf.C02
